@@ -193,6 +193,10 @@ func (s *session) start(trigger flows.Trigger) (flows.Sprint, error) {
 func (s *session) Resume(resume flows.Resume) (flows.Sprint, error) {
 	sprint := newEmptySprint()
 
+	// batch start is state of the call which started the session - it isn't persisted so a session which
+	// has been kept in memory must not behave differently to one that has been read back from JSON
+	s.batchStart = false
+
 	if err := s.prepareForSprint(); err != nil {
 		return sprint, err
 	}
